@@ -22,6 +22,15 @@ class MachineryError(Exception):
     pass
 
 
+class LibraryFailure(MachineryError):
+    """The LIBRARY raised inside a step the harness expects to succeed (model building, formulation of a model of the family, ...):
+    not a failure of the machinery but an observation about the code under test; bin/check turns it into a violation."""
+
+    def __init__(self, msg, failures):
+        super().__init__(msg)
+        self.failures = failures
+
+
 class Scratch:
     """Scratch directory outside /repo and /verif, removed on exit."""
 
